@@ -1948,6 +1948,9 @@ class TestGraph(object):
                 object_vm,
                 object_image,
             )
+            # a failed configuration is a failed installation attempt and has to be kept
+            # as such or else it is retried endlessly (and always with the same test ID)
+            test_node.results += pre_node.results[len(test_node.results) :]
             return status
 
         logging.info("Installing virtual machine %s", test_object.suffix)
